@@ -110,7 +110,10 @@ Fixpoint natpairs_eqb (a b : list (nat * nat)) : bool :=
   | (x, y) :: a', (x', y') :: b' => Nat.eqb x x' && Nat.eqb y y' && natpairs_eqb a' b'
   | _, _ => false
   end.
-Definition nest_check (m : list (list bool)) (n : nat) (expected : list (nat * nat)) : bool :=
+(** [stored] = the depth fields of the input loops before PolygonFromLoops (stale values from an
+    earlier polygon or from Decode) *)
+Definition nest_check (m : list (list bool)) (n : nat) (stored : list nat) (expected : list (nat * nat)) : bool :=
   let ids := seq 0 n in
-  natpairs_eqb (init_nested (mat_nested m) ids) expected
-  && natpairs_eqb (init_nested_spec (mat_nested m) ids) expected.
+  let st := fun l => nth l stored 0%nat in
+  natpairs_eqb (init_nested (mat_nested m) st ids) expected
+  && natpairs_eqb (init_nested_spec (mat_nested m) st ids) expected.
